@@ -400,8 +400,15 @@ func c12Keyset(c *Ctx) {
 	// keysetToEntries: RAW => ID requirement 0; primary by ID; ID preserved
 	if k2e != nil {
 		raw, _ := constOf(p, "proto/tink_go_proto", "OutputPrefixType_RAW")
-		okRaw := false
+		okRaw, nSites, how := true, 0, map[string]bool{}
 		for _, site := range callsToDeep(k2e, core.ModPath+"/internal/protoserialization.NewKeySerialization") {
+			nSites++
+			// by value: under each prefix type the argument folds to 0 (RAW) or the key ID
+			if c12IDRequirementFolds(p, site) {
+				how["folded under each prefix type"] = true
+				continue
+			}
+			siteOK := false
 			if phi, isPhi := guard.Strip(site.Common().Args[2]).(*ssa.Phi); isPhi && len(phi.Edges) == 2 {
 				z, id := false, false
 				for i, e := range phi.Edges {
@@ -415,10 +422,18 @@ func c12Keyset(c *Ctx) {
 						id = true
 					}
 				}
-				okRaw = z && id
+				siteOK = z && id
+				how["phi[0 under RAW, GetKeyId() otherwise]"] = true
 			}
+			okRaw = okRaw && siteOK
 		}
-		r.Check(okRaw, "C12.keyset", "C12.keyset/keysetToEntries/ID requirement", p.FuncPos(k2e), "the key's ID requirement is not (0 if RAW else the proto key ID)", "phi[0 under RAW, GetKeyId() otherwise]")
+		okRaw = okRaw && nSites > 0
+		var hows []string
+		for h := range how {
+			hows = append(hows, h)
+		}
+		sort.Strings(hows)
+		r.Check(okRaw, "C12.keyset", "C12.keyset/keysetToEntries/ID requirement", p.FuncPos(k2e), "the key's ID requirement is not (0 if RAW else the proto key ID)", fmt.Sprintf("%d NewKeySerialization sites: %s", nSites, strings.Join(hows, "; ")))
 		okEntry := false
 		for _, site := range callsToDeep(k2e, core.ModPath+"/keyset.newUnmonitoredEntry") {
 			args := site.Common().Args
@@ -836,4 +851,44 @@ func c12ConstFields(c *Ctx) {
 		}
 	}
 	r.Counts["constant_proto_fields"] = n
+}
+
+// c12IDRequirementFolds: the ID requirement handed to NewKeySerialization at
+// site folds to 0 when the key's prefix type is RAW and to the key's own ID
+// under each other prefix type, however it is computed (local, helper, switch).
+func c12IDRequirementFolds(p *core.Program, site ssa.CallInstruction) bool {
+	g := site.Parent()
+	if len(site.Common().Args) < 3 {
+		return false
+	}
+	n := 0
+	for _, name := range []string{"RAW", "TINK", "LEGACY", "CRUNCHY"} {
+		pt, ok := constOf(p, "proto/tink_go_proto", "OutputPrefixType_"+name)
+		if !ok {
+			return false
+		}
+		env := bindFieldsAndGetters(g, map[string]consteval.Val{
+			"OutputPrefixType": {K: consteval.Const, C: pt},
+			"KeyId":            consteval.C(0x4d4d4d4d),
+		})
+		vals, ok := valuesAt(g, site, site.Common().Args[2], env)
+		if !ok {
+			return false
+		}
+		want := int64(0x4d4d4d4d)
+		if name == "RAW" {
+			want = 0
+		}
+		for _, v := range vals {
+			k, isK := int64(0), false
+			if v.K == consteval.Const && v.C.Kind() == constant.Int {
+				k, isK = constant.Int64Val(v.C)
+			}
+			if !isK || k != want {
+				return false
+			}
+			n++
+		}
+	}
+	return n >= 4
 }
